@@ -20,7 +20,7 @@ type nestInst struct {
 	tok  int
 }
 
-var nestClasses = []string{"prim", "nil", "stack", "alias", "ptr-alias", "cond", "cond(stack)", "aliasS", "ptr-stack"}
+var nestClasses = []string{"prim", "nil", "stack", "alias", "ptr-alias", "cond", "cond(stack)", "aliasS", "ptr-stack", "nil-ptr-alias", "nil-ptr-stack"}
 
 func (in *nestInst) mk(class string) (v any, stackLike bool) {
 	in.tok++
@@ -42,6 +42,10 @@ func (in *nestInst) mk(class string) (v any, stackLike bool) {
 	case "ptr-stack":
 		a := stackage.Not().Push(t)
 		return &a, true
+	case "nil-ptr-alias": // a pointer that points at no Stack is not a Stack
+		return (*StackAlias)(nil), false
+	case "nil-ptr-stack":
+		return (*stackage.Stack)(nil), false
 	case "cond":
 		return stackage.Cond("k", stackage.Eq, t), false
 	case "cond(stack)":
@@ -51,6 +55,9 @@ func (in *nestInst) mk(class string) (v any, stackLike bool) {
 }
 
 func isStackLike(v any) bool {
+	if v == nil || isNilPtr(v) {
+		return false
+	}
 	switch v.(type) {
 	case stackage.Stack, StackAlias, StackAliasS, *StackAlias, *StackAliasS, *stackage.Stack:
 		return true
@@ -274,7 +281,7 @@ func c13Configs(c *Ctx) []c13Cfg {
 	}
 	out = append(out, c13Cfg{"OR+decorated", 2, 2, nestClasses, false})
 	out = append(out, c13Cfg{"LIST+cap2", 2, 3, []string{"prim", "stack", "ptr-alias", "cond"}, false}, c13Cfg{"NOT+cap2", 2, 3, []string{"prim", "alias", "nil"}, false})
-	out = append(out, c13Cfg{"CONDITION", 1, 1, []string{"prim", "nil", "stack", "alias", "ptr-alias", "cond", "cond(stack)", "aliasS", "ptr-stack"}, true})
+	out = append(out, c13Cfg{"CONDITION", 1, 1, nestClasses, true})
 	return out
 }
 
@@ -291,7 +298,7 @@ func init() {
 		return nil
 	}
 	register(&Check{ID: "C13", Engine: "A", Run: func(c *Ctx) {
-		c.Rule = "BFS to fix-point: state = element classes (primitive, nil, Stack, alias, alias with String, pointer to alias, pointer to Stack, Condition, Condition holding a Stack) x no-nesting flag; alphabet = every push batch up to the batch bound over those classes, set/clear/toggle of the option, Pop; a Condition machine does the same with SetExpression; non-trivial = distinct (state size, operation) where a Stack-like value was offered while the option was set"
+		c.Rule = "BFS to fix-point: state = element classes (primitive, nil, Stack, alias, alias with String, pointer to alias, pointer to Stack, nil pointer to alias / to Stack, Condition, Condition holding a Stack) x no-nesting flag; alphabet = every push batch up to the batch bound over those classes, set/clear/toggle of the option, Pop; a Condition machine does the same with SetExpression; non-trivial = distinct (state size, operation) where a Stack-like value was offered while the option was set"
 		c.Exhaustive = true
 		for _, cfg := range c13Configs(c) {
 			st := BFS(c, c13Machine(c, cfg.Kind, cfg.MaxL, cfg.MaxBatch, cfg.Classes, cfg.Cond))
